@@ -116,7 +116,7 @@ func ccParseActs(s string) []ccAct {
 	var out []ccAct
 	for _, t := range strings.Split(s, ",") {
 		switch {
-		case t == "P" || t == "N" || t == "A" || t == "SP" || t == "CP" || t == "X":
+		case t == "P" || t == "N" || t == "A" || t == "SP" || t == "CP" || t == "X" || t == "RR":
 			out = append(out, ccAct{kind: t})
 		case strings.HasPrefix(t, "WP:") || strings.HasPrefix(t, "SD:"):
 			p := strings.Split(t, ":")
@@ -246,6 +246,7 @@ type ccReqState struct {
 	req      *http.Request
 	ctx      *rux.Context // the context the request ran on (pointer identity goes into the stats only)
 	kept     []*ccKept    // copies taken by `CP`
+	ccwAlien string       // set when the request found the Resp wrapper of ANOTHER request in its context (`RR`)
 	startT   int64        // scheduler ticks (stats only)
 	endT     int64
 }
@@ -322,6 +323,28 @@ func (concEngine) Stats() map[string]int {
 	return out
 }
 
+// ccwWrap is what the action `RR` puts into c.Resp: a response-writer wrapper in front of the writer that was
+// there (the gin-style `c.Writer = wrapper` of a gzip / capture middleware), never put back. It is transparent, so
+// the request that installs it answers what it answers without it (the model skips the action). It belongs to
+// that request: no other request may ever find it in its context.
+type ccwWrap struct {
+	under http.ResponseWriter
+	owner *ccReqState
+}
+
+func (w *ccwWrap) Header() http.Header         { return w.under.Header() }
+func (w *ccwWrap) WriteHeader(code int)        { w.under.WriteHeader(code) }
+func (w *ccwWrap) Write(b []byte) (int, error) { return w.under.Write(b) }
+
+// ccwCheckResp: oracle of C03 for replaced writers (evaluated when a handler starts and before every write).
+func ccwCheckResp(rs *ccReqState, c *rux.Context) {
+	for w, ok := c.Resp.(*ccwWrap); ok && rs.ccwAlien == ""; w, ok = w.under.(*ccwWrap) {
+		if w.owner != rs {
+			rs.ccwAlien = fmt.Sprintf("runs with c.Resp = the writer wrapper that the request %s %s installed", w.owner.req.Method, w.owner.req.URL.Path)
+		}
+	}
+}
+
 type ccRecorder struct {
 	hdr  http.Header
 	code int
@@ -367,8 +390,11 @@ func ccHandler(hid int, prog []ccAct) rux.HandlerFunc {
 		if rs.ctx == nil {
 			rs.ctx = c
 		}
+		ccwCheckResp(rs, c)
 		for _, a := range prog {
 			switch a.kind {
+			case "RR":
+				c.Resp = &ccwWrap{under: c.Resp, owner: rs}
 			case "CP":
 				rs.kept = append(rs.kept, &ccKept{hid: hid, from: c, cp: c.Copy()})
 			case "X":
@@ -406,6 +432,7 @@ func ccHandler(hid int, prog []ccAct) rux.HandlerFunc {
 			case "ST":
 				c.SetStatus(a.n)
 			case "W":
+				ccwCheckResp(rs, c)
 				_, _ = c.Resp.Write([]byte(a.v))
 			}
 		}
@@ -783,6 +810,11 @@ func (concEngine) Run(ops []string) (ans []string, oracle []string) {
 		return
 	}
 	checkKept()
+	for i, rs := range reqs {
+		if rs.ccwAlien != "" {
+			oracle = append(oracle, fmt.Sprintf("C03 pooled context: request %d (%s %s) %s; schedule: %s", i, cfg.reqs[i].method, cfg.reqs[i].path, rs.ccwAlien, strings.Join(schedule, " ")))
+		}
+	}
 	// stats: how many kept copies saw the context they were taken from handed to a later request
 	for i, rs := range reqs {
 		for _, k := range rs.kept {
